@@ -177,12 +177,16 @@ async fn spawn_node_alone(
 ///     authenticated and waits for A's `NodeServer` to answer `CheckSession`;
 ///  3. the (paused) clock is advanced by `adv` ms (0 = control, 600 = past the deadline);
 ///  4. A's `NodeServer` runs again, everything runs to rest.
-/// op  `e2t <nameA> <nameB> adv=<ms>`
+/// op  `e2t <nameA> <nameB> adv=<ms> c1=<a|b>`
 /// impl `<A kept before>/<B kept before> <A kept>|<B kept>|<A ready events, raw>|<B ready events, raw>`
 async fn timeout_case(log: &mut Log, st: &mut Stats, rng: &mut Rng, case_no: u64) {
     let pool = [("b", "a"), ("n2", "n10"), ("x", "Y")];
     let (na, nb) = *rng.pick(&pool);
     let adv: u64 = *rng.pick(&[0u64, 600, 600, 499, 5000]);
+    // who dials c1: A (its session on A is client-side: only the POST-authentication check needs A's
+    // NodeServer) or B (A's session is server-side: the PRE-authentication check times out => that
+    // connection closes, the established link must stay)
+    let c1_by_a = rng.chance(2, 3);
     let host = format!("t{case_no}");
     let ctl = ractor::verif::install();
     let Some((a, ha, a_task)) = spawn_node_alone(&ctl, rng, st, na, &host).await else {
@@ -212,9 +216,9 @@ async fn timeout_case(log: &mut Log, st: &mut Stats, rng: &mut Rng, case_no: u64
     let before_b = sessions(&ctl, rng, st, &b).await;
     // 2. c1, dialled by A; A's NodeServer creates the session, then is starved
     let (sa, sb) = tokio::io::duplex(64 * 1024);
-    open(&a, sa, 1, false);
+    open(&a, sa, 1, !c1_by_a);
     schedule(&ctl, rng, 200_000, st).await;
-    open(&b, sb, 1, true);
+    open(&b, sb, 1, c1_by_a);
     let starve = [a_task];
     schedule_except(&ctl, rng, 200_000, st, &starve).await;
     if std::env::var("E2T_DEBUG").is_ok() {
@@ -239,7 +243,7 @@ async fn timeout_case(log: &mut Log, st: &mut Stats, rng: &mut Rng, case_no: u64
     let (ra, rb) = (ev_a.lock().unwrap().ready.clone(), ev_b.lock().unwrap().ready.clone());
     st.bump(&format!("e2t_adv_{adv}"));
     log.rec(
-        format!("e2t {na}@{host} {nb}@{host} adv={adv}"),
+        format!("e2t {na}@{host} {nb}@{host} adv={adv} c1={}", if c1_by_a { "a" } else { "b" }),
         format!("{}/{} {}|{}|{}|{}", fmt(&before_a), fmt(&before_b), fmt(&sa), fmt(&sb), fmt(&ra), fmt(&rb)),
     );
     a.stop(None);
